@@ -376,6 +376,31 @@ func (e *OpEngine) RunFCChecks() {
 			e.expectError("layers.NewFC", lbl, e.P.FuncPos(ctor), out.Results, bad.label)
 		})
 	}
+	// an initializer that fails (a Uniform built with lower >= upper) or produces a wrong shape: NewFC must return
+	// the error and NO layer
+	if uT, fT := e.typeOf(core.PkgInits, "Uniform"), e.typeOf(core.PkgInits, "Full"); uT != nil && fT != nil {
+		iface := e.typeOf(core.PkgLayers, "Initializer")
+		for _, which := range []string{"Weight", "Bias"} {
+			which := which
+			lbl := "NewFC failing " + which + " initializer"
+			e.RunBody("layers.NewFC", lbl, 100, func() {
+				e.M.Base = sizeBase([]sym.Poly{D, O})
+				confT, _ := e.fcTypes()
+				ctor := e.fn(core.PkgLayers, "NewFC")
+				badInit := e.newStructPtr(uT, map[string]interp.Value{"lower": interp.FloatC(1), "upper": interp.FloatC(0)})
+				mo := &interp.MapObj{Vals: map[string]interp.Value{}}
+				mo.Keys = append(mo.Keys, "s:"+which)
+				mo.Vals["s:"+which] = interp.IfaceV{T: types.NewPointer(uT), V: badInit}
+				_ = iface
+				arg := e.newStructPtr(confT, map[string]interp.Value{"Inputs": intV(D), "Outputs": intV(O), "Initializers": interp.MapV{M: mo}})
+				out, ok := e.call("layers.NewFC", lbl, ctor, []interp.Value{arg})
+				if !ok {
+					return
+				}
+				e.expectError("layers.NewFC", lbl, e.P.FuncPos(ctor), out.Results, "initializer fails")
+			})
+		}
+	}
 	for _, bad := range []struct {
 		label string
 		build func() interp.Value
